@@ -1,20 +1,23 @@
 #!/bin/sh
-# lane.sh <lane-id> <threads> <patch> <ID...> : like sensitivity/try.sh, but in a private copy of /repo (a git
+# lane.sh <lane-id> <threads> <verif-commit> <patch> <ID...> : like sensitivity/try.sh, but in a private copy of /repo (a git
 # worktree) and of /verif (sources only) with its own target directory, so that several patches can be tried
 # at the same time. Prints one line per check: <patch> <ID> exit=<code> [first VIOLATION detail]
-lane="$1"; threads="$2"; patch="$3"; shift 3
+lane="$1"; threads="$2"; commit="$3"; patch="$4"; shift 4
 L=/tmp/lanes/$lane
 export CARGO_NET_OFFLINE=true
 mkdir -p "$L"
 if [ ! -d "$L/repo" ]; then git -C /repo worktree add --detach "$L/repo" HEAD >/dev/null 2>&1 || exit 2; fi
 git -C "$L/repo" checkout -q --detach "$(git -C /repo rev-parse HEAD)" 2>/dev/null
 git -C "$L/repo" checkout -- . ; git -C "$L/repo" clean -fdq
-mkdir -p "$L/verif"
-rsync -a --delete --exclude target --exclude work --exclude replays --exclude .git --exclude evidence --exclude seeded --exclude preserving --exclude sensitivity /verif/ "$L/verif/"
+# the committed /verif at <verif-commit> (not the working tree: edits in progress must not leak into a batch)
+if [ "$(cat "$L/verif.commit" 2>/dev/null)" != "$commit" ]; then
+  rm -rf "$L/verif"; mkdir -p "$L/verif"
+  git -C /verif archive "$commit" -- .cargo Cargo.toml Cargo.lock dstsim shadow harness known_findings.txt | tar -x -C "$L/verif" || exit 2
+  sed -i "s#/repo/#$L/repo/#g" "$L/verif/shadow/Cargo.toml"
+  sed -i "s#/verif/target#$L/target#" "$L/verif/.cargo/config.toml"
+  echo "$commit" > "$L/verif.commit"
+fi
 mkdir -p "$L/verif/evidence" "$L/verif/replays"
-cp /verif/known_findings.txt "$L/verif/" 2>/dev/null
-sed -i "s#/repo/#$L/repo/#g" "$L/verif/shadow/Cargo.toml"
-sed -i "s#/verif/target#$L/target#" "$L/verif/.cargo/config.toml"
 git -C "$L/repo" apply "$patch" || { echo "$(basename "$patch") ALL exit=2 cannot apply"; exit 2; }
 cd "$L/verif" || exit 2
 if ! cargo build --release -p harness -p ldpc-toolbox --offline -q 2>"$L/build.log"; then
